@@ -308,7 +308,16 @@ def _part2(ctx):
         bad = 0
         # every class x {neg, T, H, conj, gram, scalar kinds} first (finite), then random trees
         table = [c for c in T.pair_table(ctx.rng) if c[1]["t"] in ("neg", "T", "H", "conj", "gram") or "R->C" in c[0] or "input_dtype" in c[0]]
-        cases = [(nm, e) for nm, e in table]
+        cases = []
+        cdir = common.CORPUS_DIR / PROP
+        if cdir.exists():
+            import json as _json
+
+            for f in sorted(cdir.glob("*.json")):
+                c = _json.loads(f.read_text())
+                if "e" in c:
+                    cases.append(("corpus:" + f.stem, c["e"]))
+        cases += [(nm, e) for nm, e in table]
         for i in range(n):
             dt_of = T.dtype_regime(ctx.rng)
             insh = T.shape(ctx.rng)
